@@ -19,6 +19,7 @@ func init() {
 var pkcs7Facts = []*fact{factIssuer, factSerial, factSignature, factContentDigest}
 
 func checkC04(c *Ctx) {
+	c.ruleSerialValue("A.serial-value")
 	c.ruleFrozen("A.frozen")
 	c.R.Floor("A.frozen", 5)
 	e := c.accept()
@@ -331,4 +332,62 @@ func (c *Ctx) ruleFrozen(rule string) {
 		})
 	}
 	c.R.Infof(rule, "-", "scan", "-", fmt.Sprintf("writes to fields of parsed signature objects examined: %d", n))
+}
+
+// ruleSerialValue: the serial number that is compared with the verifying
+// certificate's is the value of the ASN.1 INTEGER in the signer entry (two's
+// complement, as ReadASN1Integer decodes it). Taking the content octets as an
+// unsigned magnitude (big.Int.SetBytes) maps different encoded numbers — a
+// negative one, one with superfluous leading octets — to the certificate's
+// serial, so a signer entry that names another serial matches.
+func (c *Ctx) ruleSerialValue(rule string) {
+	field := M + "/pkcs7.issuerAndSerialNumber.SerialNumber"
+	n := 0
+	for _, fn := range c.P.LibFunctions() {
+		fn := fn
+		instrsOf(fn, func(i ssa.Instruction) {
+			st, ok := i.(*ssa.Store)
+			if !ok || ir.FieldID(st.Addr) != field {
+				return
+			}
+			if !c.readCone()[fn] && !strings.Contains(name(fn), "parse") {
+				return
+			}
+			n++
+			verdict := ""
+			for v := range c.sliceOf(st.Val) {
+				call, isC := v.(*ssa.Call)
+				if !isC {
+					continue
+				}
+				switch id := ir.CallID(call); {
+				case id == "math/big.Int.SetBytes" || id == "math/big.Int.SetBits" || id == "math/big.Int.SetString":
+					verdict = id
+				}
+			}
+			asn := false
+			for _, f := range withAnon(fn) {
+				instrsOf(f, func(j ssa.Instruction) {
+					if call, isC := j.(*ssa.Call); isC && strings.HasSuffix(ir.CallID(call), "cryptobyte.String.ReadASN1Integer") {
+						for _, a := range call.Call.Args {
+							if al, isA := ir.RootOf(a).(*ssa.Alloc); isA && c.sliceOf(st.Val)[al] {
+								asn = true
+							}
+						}
+					}
+				})
+			}
+			switch {
+			case verdict != "":
+				c.R.Violf(rule, name(fn), "integer-value", c.IPos(st), "the signer's serial number is the value of its ASN.1 INTEGER", "the serial is built with "+verdict+" from the raw content octets: the sign and superfluous leading octets are ignored, so an entry that encodes a different number compares equal to the certificate's serial")
+			case asn:
+				c.R.Okf(rule, name(fn), "integer-value", c.IPos(st), "the signer's serial number is decoded with ReadASN1Integer")
+			default:
+				c.R.Infof(rule, name(fn), "integer-value", c.IPos(st), "not decided for this shape: how the serial number is decoded is not identified")
+			}
+		})
+	}
+	if n == 0 {
+		c.R.Infof(rule, "-", "integer-value", "-", "not decided for this shape: no store of the signer entry's serial number found")
+	}
 }
